@@ -457,7 +457,7 @@ func cmdNestedDur(a Args) {
 			}
 			sort.Strings(ks)
 			rep.Sample(fmt.Sprintf("%s T=%d opts=%+v commits=%d events so far: %v", tag, T, struct {
-				Depth                                  int
+				Depth                                   int
 				Wrap, Maps, Detach, LargeVals, PopChild bool
 			}{opts.MaxDepth, opts.Wrap, opts.Maps, opts.Detach, opts.LargeVals, opts.PopChild}, commits, ks))
 		}
